@@ -23,7 +23,10 @@
 EXTENDS BlobStore, TLC
 
 CONSTANTS MaxStat, DefaultLimit, MaxEnum,
-          MaxWireLimit      \* model bound: limit parameter ranges over 0..MaxWireLimit, 0 = absent
+          MaxWireLimit,     \* model bound: limit parameter ranges over 0..MaxWireLimit, 0 = absent
+          Deviations        \* {} = the documented protocol.  Named deviations of the implementation:
+                            \*   "LongPollGuardInverted"  handlers/enumerate.go loops while time.Now().After(deadline):
+                            \*                            maxwaitsec > 0 answers an empty page at once (H15)
 
 VARIABLE wire
 hvars == <<vars, wire>>
@@ -50,6 +53,7 @@ ContOf(list, eff) == IF Len(list) = eff THEN list[eff][1] ELSE 0
 
 EnumWire(after, l, wait) ==
   IF wait = "pos" /\ after # 0 THEN {BadRequest("enum")}
+  ELSE IF wait = "pos" /\ "LongPollGuardInverted" \in Deviations THEN {WR(R("enum", "ok", 0, <<>>), W(200, 0, TRUE))}
   ELSE LET eff == EffLimit(l)
            rp  == EnumReply(after, eff)
        IN {WR(rp, W(200, ContOf(rp.list, eff), f)) :
